@@ -120,6 +120,34 @@ def run(tier, seed, opens):
                 fail(what + ' / re-serialised', inp, 'raw() after parse differs from the bytes parsed', 'identical bytes')
             else:
                 ok += 1
+        # the same signatures handed to the API as objects' arguments (add_input(keys=[public key], signatures=[sig])): the hash type byte of the
+        # signature that is serialised decides which digest verify() must use
+        if n_in == 1:
+            kind, h, value = spent[0]
+            i0 = t.inputs[0]
+            sig0 = i0.signatures[0].as_der_encoded()
+            for ht in (1, 2, 3, 0x81, 0x83):
+                cases += 1
+                sgm = sig0[:-1] + bytes([ht])
+                try:
+                    t3 = Transaction(network='bitcoin', version=t.version_int, locktime=t.locktime)
+                    t3.add_input(prev_txid=i0.prev_txid, output_n=i0.output_n_int, keys=[i0.keys[0].public()], signatures=[sgm], value=value, sequence=i0.sequence,
+                                 witness_type=c01.WT[kind], address=c01.spent_address(kind, h))
+                    for o in t.outputs:
+                        t3.add_output(o.value, lock_script=o.lock_script)
+                    raw3 = t3.raw()
+                    got = bool(t3.verify())
+                except Exception:
+                    ok += 1
+                    continue
+                verdict = c01.judge(raw3, spent)
+                if verdict is not None and 'asked for ALL' in verdict:
+                    verdict = _judge_any_hashtype(raw3, spent)
+                if got == (verdict is None):
+                    ok += 1
+                else:
+                    fail('signature handed to add_input with hash type byte %02x' % ht, dict(descr, raw_hex=raw3.hex()), 'Transaction.verify() is %s' % got,
+                         'verify() %s (%s)' % (verdict is None, verdict or 'valid'))
     if built < N // 2:
         failed.append({'input': {}, 'observed': 'only %d transactions could be built' % built, 'expected': str(N), 'confirmed': True, 'obligation': 'parsed-verify#bounded', 'what': 'harness vacuity'})
     return {'contract': 'parsed-verify[bounded]', 'target': 'Transaction.parse / Input.__init__ (signature and hash type extraction) / Transaction.verify', 'status': 'ok',
